@@ -129,13 +129,13 @@ Proof.
 Qed.
 
 (* the old loop, in terms of old_adj *)
-Lemma py_old_go_step : forall opener raw rest base code k,
+Lemma py_old_go_step : forall opener start raw rest base code k,
   String.eqb (strip raw) ">>" = false ->
-  py_old_go opener (raw :: rest) base code k =
-  py_old_go opener rest (old_base base (without_opener_indent raw opener))
+  py_old_go opener start (raw :: rest) base code k =
+  py_old_go opener start rest (old_base base (without_opener_indent raw opener))
             (code ++ [old_adjust base (without_opener_indent raw opener)])%list (S k).
 Proof.
-  intros opener raw rest base code k H. cbn [py_old_go]. rewrite H.
+  intros opener start raw rest base code k H. cbn [py_old_go]. rewrite H.
   unfold old_adjust, old_base. destruct base as [b|]; reflexivity.
 Qed.
 
@@ -497,11 +497,12 @@ Fixpoint safe_until2 (c : string) (r : list string) : bool :=
   | x :: r' => if String.eqb (strip x) c then true else negb (is_leg2 x) && safe_until2 c r'
   end.
 
-(* a legacy block that is rewritten: it is closed, and before its `>>` there is no line that is rewritten
-   and no line that reads `@endpy` *)
+(* a legacy block that is rewritten: before its `>>` there is no line that is rewritten and no line that reads
+   `@endpy`.  (Since fix F17o an unclosed legacy block is rejected exactly like an unclosed @py: block; before the
+   fix it was accepted and the block had to be required closed here.) *)
 Fixpoint legacy_py_ok (r : list string) : bool :=
   match r with
-  | [] => false
+  | [] => true
   | x :: r' =>
       if String.eqb (strip x) ">>" then true
       else negb (is_leg2 x) && negb (String.eqb (strip x) "@endpy") && legacy_py_ok r'
@@ -542,9 +543,9 @@ Lemma py_conv_go : forall opener opener' start r r', Forall2 Rs r r' -> legacy_p
   (forall line, without_opener_indent line opener' = without_opener_indent line opener) ->
   forall codeN k,
   py_new_go true opener' start r' codeN k =
-  POk (py_old_go opener r (base_after None codeN) (old_adj None codeN) k).
+  py_old_go opener start r (base_after None codeN) (old_adj None codeN) k.
 Proof.
-  intros opener opener' start r r' F. induction F as [|x x' r r' H F IH]; intros Hs Hw codeN k; [discriminate Hs|].
+  intros opener opener' start r r' F. induction F as [|x x' r r' H F IH]; intros Hs Hw codeN k; [reflexivity|].
   cbn [legacy_py_ok] in Hs.
   destruct (String.eqb (strip x) ">>") eqn:Ex.
   - (* the closer *)
@@ -556,7 +557,7 @@ Proof.
   - apply andb_prop in Hs. destruct Hs as [Hs Hrest]. apply andb_prop in Hs. destruct Hs as [Hl He].
     apply negb_true_iff in Hl. apply negb_true_iff in He.
     pose proof (Rz_changed _ _ _ H Hl) as <-.
-    rewrite (py_old_go_step opener x r _ _ k Ex). cbn [py_new_go]. rewrite He.
+    rewrite (py_old_go_step opener start x r _ _ k Ex). cbn [py_new_go]. rewrite He.
     rewrite (IH Hrest Hw). rewrite Hw, old_adj_snoc, base_after_snoc. reflexivity.
 Qed.
 
@@ -595,9 +596,8 @@ Proof.
       unfold extract_py_new_syntax_v, extract_py_old_syntax. rewrite El'.
       rewrite (strip_mid ind "@py:" t' Hi Ht' eq_refl) by discriminate. cbn [String.eqb Ascii.eqb Bool.eqb negb].
       rewrite (nth_default_error _ _ _ El).
-      rewrite (py_conv_go (ind ++ "<<py" ++ t) (ind ++ "@py:" ++ t') i _ _ (F2_skipn _ _ (S i) _ _ F) Hc).
-      * reflexivity.
-      * intros line. apply (woi_same_indent ind "<<py" "@py:" t t' line "<" "@" "<py" "py:" Hi); reflexivity.
+      apply (py_conv_go (ind ++ "<<py" ++ t) (ind ++ "@py:" ++ t') i _ _ (F2_skipn _ _ (S i) _ _ F) Hc).
+      intros line. apply (woi_same_indent ind "<<py" "@py:" t t' line "<" "@" "<py" "py:" Hi); reflexivity.
     + reflexivity.
 Qed.
 
@@ -652,6 +652,8 @@ Proof.
   exact H2.
 Qed.
 
+(* Since fix F17n the block of a `-> @join` choice ends at a legacy header or `<<py` as at its @ form; what is left
+   is the closer `>>` of a legacy Python block, which does not end the block while `@endpy` does *)
 Fixpoint join_safe2 (ci : nat) (rest : list string) : bool :=
   match rest with
   | [] => true
@@ -659,27 +661,24 @@ Fixpoint join_safe2 (ci : nat) (rest : list string) : bool :=
       if is_join_block_terminator line then true
       else if negb (ParseBlocks.nonempty (strip line)) || is_comment_line line then join_safe2 ci rest'
       else if ws_run line <=? ci then true
-      else negb (is_leg2 line) && join_safe2 ci rest'
+      else negb (String.eqb (strip line) ">>") && join_safe2 ci rest'
   end.
 
+Definition jterm (stripped : string) : bool :=
+  if negb (ParseBlocks.nonempty stripped) then false
+  else if startswith stripped "+ [" || startswith stripped "* [" then true
+  else if startswith stripped "+ {" || startswith stripped "* {" then true
+  else if String.eqb stripped "@join" then true
+  else if startswith stripped ":: " then true
+  else if existsb (fun m => startswith stripped m || String.eqb stripped (rstrip_colons m)) block_markers then true
+  else existsb (fun m => startswith stripped m) legacy_markers.
+
 Lemma hp2_join_facts : forall B B', hp2 B B' ->
-  (let stripped := B in
-   if negb (ParseBlocks.nonempty stripped) then false
-   else if startswith stripped "+ [" || startswith stripped "* [" then true
-   else if startswith stripped "+ {" || startswith stripped "* {" then true
-   else if String.eqb stripped "@join" then true
-   else if startswith stripped ":: " then true
-   else existsb (fun m => startswith stripped m || String.eqb stripped (rstrip_colons m)) block_markers) = false /\
-  (let stripped := B' in
-   if negb (ParseBlocks.nonempty stripped) then false
-   else if startswith stripped "+ [" || startswith stripped "* [" then true
-   else if startswith stripped "+ {" || startswith stripped "* {" then true
-   else if String.eqb stripped "@join" then true
-   else if startswith stripped ":: " then true
-   else existsb (fun m => startswith stripped m || String.eqb stripped (rstrip_colons m)) block_markers) = true /\
+  jterm B' = true /\ (jterm B = true \/ (jterm B = false /\ B = ">>")) /\
   ParseBlocks.nonempty B = true /\ startswith B "#" = false.
 Proof.
-  intros B B' H. destruct H as [B B' H| |]; [destruct H|..]; repeat split; hp_refl.
+  intros B B' H. unfold jterm. destruct H as [B B' H| |]; [destruct H|..]; repeat split; try (left; hp_refl); try hp_refl.
+  right. split; reflexivity.
 Qed.
 
 Lemma join_collect_sim2 : forall ci r r', Forall2 Rs r r' -> join_safe2 ci r = true ->
@@ -692,12 +691,13 @@ Proof.
     destruct (negb (ParseBlocks.nonempty (strip x)) || is_comment_line x); [apply IH; exact Hs|].
     destruct (ws_run x <=? ci); [reflexivity|]. apply andb_prop in Hs. apply IH. tauto.
   - destruct (hp2_strip _ _ HP) as [Hs1 [Hs1' [Hn1 Hn1']]].
-    destruct (hp2_join_facts _ _ HP) as [E1 [E2 [E3 E4]]].
-    rewrite (changed2_is_leg ind B B' t Hi Ht HP) in Hs.
-    unfold is_join_block_terminator, is_comment_line in *.
+    destruct (hp2_join_facts _ _ HP) as [E2 [E1 [E3 E4]]].
+    unfold is_join_block_terminator, is_comment_line in *. fold (jterm (strip (ind ++ B ++ t))) in *.
+    fold (jterm (strip (ind ++ B' ++ t'))).
     rewrite (strip_mid ind B t Hi Ht Hs1 Hn1) in *. rewrite (strip_mid ind B' t' Hi Ht' Hs1' Hn1').
-    cbv zeta in E1, E2. rewrite E1 in *. rewrite E2. rewrite E3, E4 in *. cbn [negb orb andb] in *.
-    rewrite (ws_run_mid ind B t Hi Hs1 Hn1) in *.
+    rewrite E2. destruct E1 as [E1|[E1 ->]]; rewrite E1 in *; [reflexivity|].
+    cbn [ParseBlocks.nonempty negb orb startswith ascii_eqb Ascii.eqb Bool.eqb andb String.eqb] in *.
+    rewrite (ws_run_mid ind ">>" t Hi eq_refl) in * by discriminate.
     destruct (String.length ind <=? ci); [reflexivity|discriminate Hs].
 Qed.
 
